@@ -91,8 +91,9 @@ def declare(reg, eng):
                                 ("C20", "implies(maybe_effect('load_job'), not exists_path(_arg0))")],
                      "rename": [("C20", "fix and cleanup")],      # (the destination was tested absent before params.json is rewritten; disjointness of the temporary file and the destination is outside the path theory)
                      "symlink_to": [("C20", "fix and not cleanup and not exists_path(_arg0)")],
-                     "json.dump": [("C20", "fix and cleanup")],
-                     "replace": [("C20", "fix and cleanup")],
+                     # the parameters are rewritten into a temporary file, never into params.json itself (which is then replaced atomically)
+                     "json.dump": [("C20", "fix and cleanup"), ("C20", "_arg1.path == job_path.with_suffix('.json.tmp')")],
+                     "replace": [("C20", "fix and cleanup"), ("C20", "_arg1 == job_path")],
                      "mkdir": [("C20", "fix")]},
                  modifies=None,
                  # (one contract for every loop over the job directories, however many passes the function makes)
